@@ -477,8 +477,40 @@ func Run(tier string, seed int64, outDir string) *common.Meta {
 			}
 		}
 	}
-	sort.Strings(meta.Notes)
 	meta.Evaluations = p0.evals + p1.evals + p2.evals
+	// selection independence: every checker ALONE on its own context vs within the full set, over the corpus and the
+	// renamed-import variants of the examples
+	{
+		t3 := time.Now()
+		cr := &corpus{fset: cs[0].fset}
+		var err error
+		cr.pkgs, err = fw.LoadRenamed(cs[0].fset, outDir)
+		if err != nil || len(cr.pkgs) < 10 {
+			meta.TieBroken = append(meta.TieBroken, fmt.Sprintf("renamed-import variants of the examples could not be derived/loaded (%d packages): %v", len(cr.pkgs), err))
+		}
+		nErr := 0
+		for _, p := range cr.pkgs {
+			if len(p.Errors) > 0 {
+				nErr++
+			}
+		}
+		cr.files = fw.AllFiles(cr.pkgs)
+		full := map[string][]fw.Outcome{}
+		for k, v := range p0.out {
+			full[k] = v
+		}
+		if len(cr.pkgs) > 0 {
+			pr := pass(cr, infos, func(*fw.File) []int { return fwd }, 0)
+			for k, v := range pr.out {
+				full[k] = v
+			}
+		}
+		selectionStream(meta, cs[0], infos, append(append([]*fw.File(nil), cs[0].files...), cr.files...), full)
+		meta.Distribution["renamed_import_packages"] = len(cr.pkgs)
+		meta.Distribution["renamed_import_packages_with_type_errors"] = nErr
+		meta.Distribution["selection_s"] = time.Since(t3).Seconds()
+	}
+	sort.Strings(meta.Notes)
 	meta.Distinct = withWarn / 2
 	meta.Distribution["check_calls_fingerprinted"] = p0.evals
 	meta.Distribution["fingerprints_taken"] = p0.fps + p1.fps + p2.fps
